@@ -303,6 +303,8 @@ func (env *ExecEnv) expandParam(fields []*field, pe *ast.ParamExp, mode ExpMode)
 				b.WriteString(s)
 			}
 			a = []string{b.String()}
+			// a single string which may be empty
+			null = b.Len() == 0
 		}
 	default:
 		var v Var
